@@ -65,6 +65,8 @@ class Hist(object):
             return self._call(p.simulate, **B.sim_args(spec, initialize_state_info=False, initialize_log_info=False, absence_time_list=list(op[1])))
         if kind == "sim_keeplog_abs":  # appended run with another project absence list
             return self._call(p.simulate, **B.sim_args(spec, initialize_log_info=False, max_time=p.time + spec["sim"]["max_time"], absence_time_list=list(op[1])))
+        if kind == "sim_keepstate":    # the mixed combination: logs and clock reset, state kept
+            return self._call(p.simulate, **B.sim_args(spec, initialize_state_info=False, initialize_log_info=True))
         if kind == "sim_keeplog":
             return self._call(p.simulate, **B.sim_args(spec, initialize_log_info=False, max_time=p.time + spec["sim"]["max_time"]))
         if kind == "backward":
